@@ -56,3 +56,19 @@ Lemma desc_is_null_agrees : forall x,
   L_image_IMAGE_IMPORT_DESCRIPTOR_is_null_ok (x / 2 ^ (8 * IMAGE_IMPORT_DESCRIPTOR_FirstThunk_off)) = true /\
   L_image_IMAGE_IMPORT_DESCRIPTOR_is_null (x / 2 ^ (8 * IMAGE_IMPORT_DESCRIPTOR_FirstThunk_off)) = desc_is_null x.
 Proof. intros x. split; reflexivity. Qed.
+
+(* what each binder of the generated definitions stands for in the source (third audit, F2): a function that starts
+   reading another field or index changes coq/gen/Leaf.v only in these lists *)
+From Coq Require Import List String.
+Import ListNotations.
+Lemma leaf_reads_imports :
+  L_image_IMAGE_IMPORT_DESCRIPTOR_is_null_args = ["self.FirstThunk : u32"%string] /\
+  L_pe32_imports_import_from_va__by_name_args = ["va : u32"%string] /\
+  L_pe32_imports_import_from_va__rva_args = ["va : u32"%string] /\
+  L_pe32_imports_import_from_va__name_rva_args = ["va : u32"%string] /\
+  L_pe32_imports_import_from_va__ordinal_args = ["va : u32"%string] /\
+  L_pe64_imports_import_from_va__by_name_args = ["va : u64"%string] /\
+  L_pe64_imports_import_from_va__rva_args = ["va : u64"%string] /\
+  L_pe64_imports_import_from_va__name_rva_args = ["va : u64"%string] /\
+  L_pe64_imports_import_from_va__ordinal_args = ["va : u64"%string].
+Proof. repeat split; reflexivity. Qed.
